@@ -257,3 +257,42 @@ def cooDense (trip : List (Trip Int)) (nRef nQry : Nat) : List (List Int) :=
 end output
 
 end Prs
+
+/-! ### database objects queried repeatedly (SymdelDB / LookupDB histories) -/
+namespace Prs
+section db
+variable {S V D : Type} [DecidableEq V] [DecidableEq D]
+
+/-- `SymdelDB` object: the stored sequences and the stored inverted index -/
+structure SymDB (S V : Type) where
+  seqs : List S
+  index : List (V × List Nat)
+
+def SymDB.build (vs : S → List V) (xs : List S) : SymDB S V := ⟨xs, buildIndex vs xs⟩
+
+/-- `variant_dict[key]` or nothing -/
+def SymDB.get (db : SymDB S V) (key : V) : List Nat :=
+  match db.index.find? (fun kv => kv.1 == key) with
+  | some kv => kv.2
+  | none => []
+
+/-- `SymdelDB.lookup(qs)` reading the STORED index; returns the (unchanged) object and the answer -/
+def SymDB.lookup (vs : S → List V) (score : S → S → Option D) (db : SymDB S V) (qs : List S) :
+    SymDB S V × List (Trip D) :=
+  (db, qs.zipIdx.flatMap fun qi =>
+    let js := dedup ((vs qi.1).flatMap fun c => db.get c)
+    js.filterMap fun j =>
+      match db.seqs[j]? with
+      | some r => (score qi.1 r).map fun d => (qi.2, j, d)
+      | none => none)
+
+/-- a history of lookups against one object: thread the state, collect the answers -/
+def SymDB.run (vs : S → List V) (score : S → S → Option D) :
+    SymDB S V → List (List S) → SymDB S V × List (List (Trip D))
+  | db, [] => (db, [])
+  | db, qs :: rest =>
+      let r := SymDB.lookup vs score db qs
+      let rr := SymDB.run vs score r.1 rest
+      (rr.1, r.2 :: rr.2)
+end db
+end Prs
